@@ -240,6 +240,90 @@ def w_invocations(case, opts):
     return {"res": out}
 
 
+# what an embedder's functions and set() calls hand to the engine: every Python value shape, empty / falsy / nested / exotic
+HOST_VALUES = [
+    "None", "True", "False", "0", "1", "-1", "0.0", "-0.0", "1.5", "float('nan')", "float('inf')", "2**53", "2**70", "-2**70", "10**400", "''", "'x'", "'\\x00'", "'\\ud800'",
+    "[]", "{}", "()", "set()", "frozenset()", "b''", "bytearray()", "range(0)", "[[]]", "[{}]", "[None]", "[()]", "{'a': []}", "{'a': {}}", "{'a': None}", "{'a': ()}",
+    "{'name': 'x', 'tags': [], 'meta': {}}", "[1, [], {}, 'x', None, [[], [{}]]]", "{'a': {'b': {'c': []}}}", "(1, 2)", "[(1, 2)]", "{'t': (1, 2)}", "{1, 2}", "[{1}]", "b'ab'", "[b'ab']",
+    "{'b': b''}", "range(3)", "[range(3)]", "1j", "0j", "[0j]", "{'c': 1j}", "__import__('decimal').Decimal(0)", "__import__('decimal').Decimal('1.5')", "[__import__('decimal').Decimal(0)]",
+    "__import__('fractions').Fraction(1, 3)", "__import__('collections').OrderedDict()", "__import__('collections').OrderedDict(a=1)", "__import__('collections').deque()",
+    "__import__('collections').defaultdict(list)", "__import__('collections').Counter()", "[__import__('collections').deque()]", "object()", "[object()]", "{'o': object()}", "NotImplemented",
+    "Ellipsis", "[Ellipsis]", "__import__('os')", "[__import__('os')]", "{'m': __import__('sys')}", "iter([])", "(x for x in [])", "[iter([1])]", "memoryview(b'')",
+    "{1: 'a', 2: 'b'}", "{None: 1}", "{(1, 2): 1}", "{'': ''}", "{'__proto__': 1}", "{'length': 0}", "[True, False, 0, '']", "{'f': False, 'z': 0, 'e': '', 'n': None}",
+    "__import__('datetime').date(2020, 1, 1)", "__import__('pathlib').Path('.')", "__import__('array').array('i')", "slice(0)", "Exception('x')", "[Exception('x')]", "__import__('enum').Enum('E', 'A').A",
+    "__import__('types').SimpleNamespace()", "__import__('types').SimpleNamespace(a=[])", "__import__('types').MappingProxyType({})",
+]
+HOST_ROUTES = {
+    "return": "var v = hostret();",
+    "return-via-call": "var v = hostret.call(null);",
+    "return-via-callback": "var v = [1].map(hostret)[0];",
+    "return-via-getter-fn": "var v = ({get g() { return hostret(); }}).g;",
+    "return-via-valueOf": "var v; try { v = ({valueOf: hostret}) + 1; } catch (e) { v = 0; } v = hostret();",
+    "return-as-replacer": "var v; try { v = 'a'.replace('a', hostret); } catch (e) { v = 0; }",
+    "return-as-comparator": "var v; try { v = [2, 1].sort(hostret); } catch (e) { v = 0; }",
+    "global-set": "var v = hostval;",
+    "global-set-typeof": "var v = typeof hostval === 'undefined' ? undefined : hostval;",
+}
+HOST_USE = ("log(typeof v, v === undefined, v === null, Array.isArray(v)); var w = [v, {k: v}]; hostfn(v, w); log(w[0], w[1].k);\n"
+            "function walk(x, d) { hostfn(x); if (d < 4 && x !== null && typeof x === 'object') { for (var k in x) { walk(x[k], d + 1); } } }\n"
+            "try { walk(v, 0); } catch (e) { log('walk', e.name); }\n"
+            "try { log(JSON.stringify(v)); } catch (e) { log('json', e.name); }\n"
+            "try { log(String(v)); } catch (e) { log('string', e.name); }\n"
+            "try { log(v ? 1 : 2, v == null, [v].length, [v].concat(v).length); } catch (e) { log('ops', e.name); }\n"
+            "try { log(v.length, v[0], v.a, v.tags, v.meta); } catch (e) { log('props', e.name); }\n"
+            "v;")
+
+
+def w_hostvalues(case, opts):
+    """Each host value on each route from the embedder into a script, under the operand-stack sanitizer; the host function that
+    receives values back classifies each argument; the eval result goes through the typed boundary encoding."""
+    from vf import engine as E
+    out = []
+    for vi, route in case["items"]:
+        try:
+            val = eval(HOST_VALUES[vi])
+        except Exception as ex:      # noqa
+            out.append({"o": "skip", "why": repr(ex)})
+            continue
+        cur = {"san": None}
+        calls = []
+        bad = []
+
+        def hostfn(*args):
+            calls.append(len(args))
+            for a in args:
+                why = cur["san"].classify(a)
+                if why and len(bad) < 5:
+                    bad.append(["host-function-argument:" + why, "hostfn", len(args)])
+            return 7
+
+        def hostret(*args):
+            return val
+        ctx = E.new_context()
+        ctx.set("hostfn", hostfn)
+        ctx.set("hostret", hostret)
+        ent = {}
+        if route.startswith("global-set"):
+            try:
+                ctx.set("hostval", val)
+            except Exception as ex:   # an embedder-facing refusal is fine; what reaches the script is what is judged
+                ent["set_refused"] = type(ex).__name__
+        san = Sanitizer(E, ctx, [hostfn, hostret])
+        cur["san"] = san
+        r = E.run_js(HOST_ROUTES[route] + "\n" + HOST_USE, {"_vm_mons": [san.mon], "max_steps": 200000, "log": True}, ctx=ctx)
+        ent.update({"o": r["out"], "ret": r.get("ret"), "py": r.get("py"), "log": r.get("log"), "bad": san.bad + bad, "checked": san.checked, "host_calls": len(calls)})
+        if r["out"] != "ok":
+            ent["err"] = r.get("err") or r.get("abort")
+        # the same value read back by the embedder
+        try:
+            got = ctx.get("v") if r["out"] == "ok" else None
+            ent["get"] = E.encpy(got)
+        except Exception as ex:  # noqa
+            ent["get_exc"] = E.describe_exc(ex)
+        out.append(ent)
+    return {"res": out}
+
+
 NO_INVOKE_FORMS = [
     "typeof hostfn", "'x' in hostfn", "for (var k in hostfn) {}", "Object.keys(hostfn)", "JSON.stringify(hostfn)",
     "JSON.stringify({f: hostfn})", "({}) instanceof Object; hostfn instanceof Object", "Object.create(hostfn)", "hostfn.x",
@@ -421,6 +505,8 @@ def main(ctx):
         progs += caught_error_programs() + native_value_programs() + operator_value_programs()
         rres = ep.map({"mod": "checks.C03", "fn": "w_probe"}, [{"progs": progs[i:i + 50], "log": True} for i in range(0, len(progs), 50)],
                       batch=1, timeout=600)
+        hitems = [(vi, rt) for vi in range(len(HOST_VALUES)) for rt in HOST_ROUTES]
+        hres = ep.map({"mod": "checks.C03", "fn": "w_hostvalues"}, [{"items": hitems[i:i + 40]} for i in range(0, len(hitems), 40)], batch=1, timeout=600)
         # invocation log programs
         fixed = random.Random(31337)
         iprogs = [{"src": gen_invocation_prog(fixed if i % 2 else rng)} for i in range(400 if ctx.quick else 6000)]
@@ -500,6 +586,32 @@ def main(ctx):
                 ctx.violation(("host-value-observable", "program"), {"case": progs[pi], "observed": str(e)[:500]})
             ctx.nontrivial(("prog", h(progs[pi])))
             pi += 1
+    # ---- values entering from the embedder
+    hi = 0
+    host_judged = 0
+    for r in hres:
+        if not r or "res" not in r:
+            ctx.violation(("host-values-worker-failed",), {"detail": r})
+            hi += 40
+            continue
+        for e in r["res"]:
+            vi, rt = hitems[hi]
+            hi += 1
+            ctx.count()
+            if e["o"] == "skip":
+                continue
+            host_judged += 1
+            checked += e.get("checked", 0)
+            desc = {"host_value": HOST_VALUES[vi], "route": rt, "script": HOST_ROUTES[rt] + "\n" + HOST_USE}
+            if e.get("bad"):
+                ctx.violation(("sanitizer", e["bad"][0][0].split(":")[0], "host-value", rt), {"case": desc, "bad": e["bad"]})
+            elif "HOST" in json.dumps([e.get("ret"), e.get("log")]):
+                ctx.violation(("host-value-observable", "host-value", rt), {"case": desc, "observed": str(e)[:600]})
+            elif e["o"] != "ok" and not (e["o"] == "jserr" and (e.get("err") or {}).get("kind") != "host"):
+                ctx.violation(("host-exception", "host-value", rt), {"case": desc, "observed": str(e)[:600]})
+            if e["o"] == "ok":
+                ctx.nontrivial(("hostval", vi, rt))
+    ctx.cov["host_value_route_cells_judged"] = host_judged
     # ---- invocation log checker
     ii = 0
     inv_total = 0
